@@ -77,6 +77,9 @@ pub struct WorldSpec {
     pub env: Vec<(String, String)>,
     /// FollowExec: writer chunks that land after FollowFileExecutor::new returned and before execute() is called
     pub land_after_new: usize,
+    /// Batch mode: the engine handed to FileExecutor has its joined table loaded already
+    /// (`ExecutionEngine::with_executed_joined_table`, the constructor the Python wrapper uses); execute() loads it again
+    pub preload_join: bool,
     /// index into `files` of an input whose every read fails with EIO
     pub unreadable_file: Option<usize>,
 }
@@ -108,6 +111,7 @@ impl WorldSpec {
             tz: None,
             env: Vec::new(),
             land_after_new: 0,
+            preload_join: false,
             unreadable_file: None,
         }
     }
@@ -342,13 +346,18 @@ fn drive(spec: &WorldSpec, running: Arc<AtomicBool>) -> DriverOut {
                 display_options.output_format = parse_format(&spec.format);
                 display_options.single_result = spec.single_result;
                 display_options.print_result = spec.print_result;
-                let executor = FileExecutor::with_output_printer(
-                    running.clone(),
-                    files,
-                    display_options,
-                    SimPrinter,
-                    ExecutionEngine::new(&tables, &statement),
-                );
+                let engine = if spec.preload_join {
+                    match ExecutionEngine::with_executed_joined_table(&tables, &statement) {
+                        Ok(engine) => engine,
+                        Err(err) => {
+                            out.status = Status::Err(format!("{}", err));
+                            return out;
+                        }
+                    }
+                } else {
+                    ExecutionEngine::new(&tables, &statement)
+                };
+                let executor = FileExecutor::with_output_printer(running.clone(), files, display_options, SimPrinter, engine);
                 match executor {
                     Ok(mut executor) => {
                         let result = executor.execute();
